@@ -90,6 +90,19 @@ _WORKER_FN = None
 def _call(arg):
     try:
         return _WORKER_FN(arg)
+    except Exception as exc:
+        # an exception that escapes from the code under test at a place where the check did not expect one is a
+        # violation of the property being checked (the check only makes valid calls there), not a harness error
+        tb = traceback.extract_tb(exc.__traceback__)
+        inner = [fr for fr in tb if os.path.abspath(fr.filename).startswith(os.path.abspath(SRC) + os.sep)]
+        if inner:
+            fr = inner[-1]
+            where = f"{fr.filename.split('AutoCarver/')[-1]}:{fr.name}"
+            return {
+                "outcome": "unexpected-exception",
+                "violations": [{"kind": f"unexpected-{type(exc).__name__}@{where}", "what": f"unexpected {type(exc).__name__}: {str(exc)[:160]} at {where} (called from {tb[-len(inner)-1].name if len(tb) > len(inner) else '?'})"}],
+            }
+        return {"__harness_error__": f"{type(exc).__name__}: {exc}", "tb": traceback.format_exc(), "case": jsonable(arg)}
     except BaseException as exc:  # harness error inside a worker: never swallowed
         return {"__harness_error__": f"{type(exc).__name__}: {exc}", "tb": traceback.format_exc(), "case": jsonable(arg)}
 
